@@ -552,6 +552,13 @@ _TRANSPARENT = {"cast", "list", "tuple", "sorted", "set", "frozenset", "enumerat
 
 def _value_chains(v: ast.AST) -> List[Tuple[str, ...]]:
     """Chains a bound value is (an element / alias of)."""
+    if isinstance(v, ast.Starred):
+        return _value_chains(v.value)
+    if isinstance(v, ast.Call) and isinstance(v.func, ast.Name) and v.func.id == "map" and len(v.args) >= 2:
+        out = []
+        for a in v.args[1:]:
+            out += _value_chains(a)
+        return out
     if isinstance(v, ast.Call) and isinstance(v.func, ast.Name) and v.func.id in _TRANSPARENT:
         out = []
         args = v.args[1:] if v.func.id == "cast" else v.args
